@@ -7,6 +7,9 @@
 // real tun handler. Stage T: the observed verdicts (frame on the tun channel,
 // frames emitted to the mesh, CheckInboundTrafficPolicy over protocols 0..255)
 // are judged by TLC (TrafficPolicy_Trace).
+// Stage R also executes the ICMPv6 cases of the model (CaseIcmp): well-formed ICMPv6 messages - error types 1..4 and
+// others - that QUOTE a packet: the port of a configured service, a packet the local host really sent, a connection of
+// the sender that was admitted or refused before. They are judged by the same trace specification as ICMPv6 packets.
 package main
 
 import (
@@ -47,6 +50,10 @@ type act struct {
 	SrcIsMe bool   `json:"srcisme"`
 	Dst     string `json:"dst"`
 	ToMesh  bool   `json:"tomesh"`
+	// ICMPv6 messages that quote a packet (name "icmp")
+	Kind string `json:"kind"`
+	What string `json:"what"`
+	Hist string `json:"hist"`
 }
 
 var names = map[string]int{"me": 1, "f1": 2, "f2": 3, "o1": 4, "o2": 5}
@@ -87,7 +94,9 @@ func storeFor(svcs []svc, isolate bool, friends ...string) config.Store {
 type scene struct {
 	// wrap, when set, rewrites the inner packet of the next inbound case (extension headers in front of the transport header)
 	wrap func(pk []byte) []byte
-	ms   *mesh.Mesh
+	// sport, when set, is the source port of the next inbound case (40000 otherwise)
+	sport int
+	ms    *mesh.Mesh
 	me   *world.Node
 }
 
@@ -187,6 +196,9 @@ func (s *scene) inbound(a act) (toTun, panicked bool) {
 		innerDst = netip.MustParseAddr("fd00::2")
 	}
 	sp := 40000
+	if s.sport != 0 {
+		sp = s.sport
+	}
 	pk := packet(innerSrc, innerDst, a.Proto, sp, a.Dport)
 	if s.wrap != nil {
 		pk = s.wrap(pk)
@@ -272,7 +284,7 @@ func main() { vf.Main("C06", "model_checking", run) }
 var nExt, nPrior int
 
 func run(c *vf.Ctx) {
-	c.Rule("M: TLC enumerates 265 configurations (none, every single service over 6 schemes x 4 ports x 5 access rules, 144 two-service combinations) x genuine packets (4 senders x 4 protocols x 5 ports), not-what-they-claim variants, established flows with and without isolation, outbound packets (source, 5 destination kinds, isolation): 18k cases with the allowed verdict. R: every configuration the real parser accepts installed in a real router; quick executes a seeded sample of the packet cases per configuration, thorough all; CheckInboundTrafficPolicy is also swept over protocols 0..255 x ports {0,1,p-1,p,p+1,65535}. T: observed verdicts judged by TLC. distinct = distinct (configuration, packet case)")
+	c.Rule("M: TLC enumerates 265 configurations (none, every single service over 6 schemes x 4 ports x 5 access rules, 144 two-service combinations) x genuine packets (4 senders x 4 protocols x 5 ports), not-what-they-claim variants, established flows with and without isolation, ICMPv6 messages that quote a packet (error/other types x what the quote spells x what happened on the quoted connection before), outbound packets (source, 5 destination kinds, isolation): 18k cases with the allowed verdict. R: every configuration the real parser accepts installed in a real router; quick executes a seeded sample of the packet cases per configuration, thorough all; CheckInboundTrafficPolicy is also swept over protocols 0..255 x ports {0,1,p-1,p,p+1,65535}. T: observed verdicts judged by TLC. distinct = distinct (configuration, packet case)")
 	c.Assume("a packet of a flow the local host opened (mirrored 5-tuple, cached outbound verdict 'allowed') is admitted without a service - the established-flow reading of the property (DESIGN C06)", "IPv6 extension headers are not parsed by the code; ports are bytes 40..44")
 
 	mc, err := c.TLC("TrafficPolicy", "TrafficPolicy_MC.cfg", vf.TLCOpts{Workers: 1, Timeout: 10 * time.Minute, Heap: "8g"})
@@ -284,6 +296,8 @@ func run(c *vf.Ctx) {
 	}
 	c.AddModel(mc.Distinct, mc.Generated)
 	byCfg := map[string][]act{}
+	byCfgIcmp := map[string][]act{} // ICMPv6 messages quoting a packet: sampled and executed apart from the packet cases
+	cfgOf := map[string]act{}
 	var order []string
 	nbad := 0
 	for _, e := range mc.Edges {
@@ -302,22 +316,32 @@ func run(c *vf.Ctx) {
 			a.Friends = "both"
 		}
 		k := cfgKey(a.Svcs, a.Isolate, a.Friends)
-		if _, ok := byCfg[k]; !ok {
+		if _, ok := cfgOf[k]; !ok {
 			order = append(order, k)
+			cfgOf[k] = a
+		}
+		if a.Name == "icmp" {
+			byCfgIcmp[k] = append(byCfgIcmp[k], a)
+			continue
 		}
 		byCfg[k] = append(byCfg[k], a)
 	}
 	sort.Strings(order)
+	// configurations that only the ICMPv6 cases use come last: the order (and with it the seeded sample) of the others stays what it was
+	sort.SliceStable(order, func(i, j int) bool { return len(byCfg[order[i]]) > 0 && len(byCfg[order[j]]) == 0 })
 	c.Stage("M", map[string]any{"cases": len(mc.Edges), "configurations": len(order), "invalid_configurations": nbad})
 	c.Logf("M: %d cases, %d configurations", len(mc.Edges), len(order))
 
 	rng := rand.New(rand.NewSource(c.Seed))
+	rngIcmp := rand.New(rand.NewSource(c.Seed*7919 + 58)) // a stream of its own: the sample of the packet cases stays what it was
+	nIcmp, nIcmpToTun := 0, 0
+	var tIcmp time.Duration
 	var events []any
 	nWide := 0
 	skipped := 0
 	for ci, k := range order {
 		cases := byCfg[k]
-		a0 := cases[0]
+		a0 := cfgOf[k]
 		if !c.Thorough() && len(cases) > 24 {
 			rng.Shuffle(len(cases), func(i, j int) { cases[i], cases[j] = cases[j], cases[i] })
 			cases = cases[:24]
@@ -448,7 +472,38 @@ func run(c *vf.Ctx) {
 			}
 			c.Distinct(fmt.Sprintf("%s|%v", k, a))
 		}
-		if ci == 3 {
+		// ICMPv6 messages that quote a packet: error types and others, quoting a service's port, a packet the local
+		// host sent, a connection of the sender that was admitted or refused, or something made up
+		icases := byCfgIcmp[k]
+		reps := c.Pick(1, 3) // concretisations per case
+		tI := time.Now()
+		if n := c.Pick(16, len(icases)); len(icases) > n {
+			rngIcmp.Shuffle(len(icases), func(i, j int) { icases[i], icases[j] = icases[j], icases[i] })
+			icases = icases[:n]
+		}
+		for _, a := range icases {
+			for r := 0; r < reps; r++ {
+				q := concretise(rngIcmp, a)
+				sc := s
+				if a.Hist != "made-up" {
+					if sc = fresh(); sc == nil {
+						c.Broken("R: the configuration %v was accepted a moment ago and is refused now", a0.Svcs)
+					}
+				}
+				toTun, panicked, pinged := sc.icmpCase(a, q)
+				c.Eval(1)
+				nIcmp++
+				if toTun {
+					nIcmpToTun++
+				}
+				events = append(events, map[string]any{"ev": "in", "svcs": a.Svcs, "isolate": a.Isolate, "who": a.Who, "proto": 58, "dport": 0,
+					"variant": "icmp-quote", "flow": pinged, "friends": a.Friends, "totun": toTun, "panic": panicked,
+					"kind": a.Kind, "what": a.What, "hist": a.Hist, "icmp": q.String()})
+			}
+			c.Distinct(fmt.Sprintf("%s|%v", k, a))
+		}
+		tIcmp += time.Since(tI)
+		if ci == 3 && len(cases) > 0 {
 			c.Sample(map[string]any{"configuration": a0.Svcs, "isolate": a0.Isolate, "cases": len(cases), "example": cases[0]})
 		}
 	}
@@ -456,7 +511,14 @@ func run(c *vf.Ctx) {
 	}
 	c.Eval(nWide)
 	c.Extra("wide_port_sweep_calls", nWide)
-	c.Stage("R", map[string]any{"configurations": len(order), "skipped_parser_rejected": skipped, "events": len(events)})
+	if nIcmp == 0 || nIcmpToTun == 0 || nIcmpToTun == nIcmp {
+		// the ICMPv6 messages must both reach the interface (icmp6/ping6 services, the local host pinged first) and be
+		// refused, or the stage has judged nothing
+		c.Broken("R: %d ICMPv6 messages quoting a packet executed, %d handed to the interface - the stage is vacuous", nIcmp, nIcmpToTun)
+	}
+	c.Extra("icmp_quote_messages", map[string]int{"executed": nIcmp, "handed_to_interface": nIcmpToTun, "ms": int(tIcmp.Milliseconds())})
+	c.Logf("R: %d ICMPv6 messages quoting a packet, %d handed to the interface (%.1fs)", nIcmp, nIcmpToTun, tIcmp.Seconds())
+	c.Stage("R", map[string]any{"configurations": len(order), "skipped_parser_rejected": skipped, "events": len(events), "icmp_quote_messages": nIcmp})
 	c.Logf("R: %d configurations, %d observations", len(order), len(events))
 
 	for len(events) > 0 {
@@ -475,6 +537,8 @@ func run(c *vf.Ctx) {
 		case "in":
 			if ev["panic"] == true {
 				key, what = vf.Key("panic", ev["variant"]), "the router worker panicked"
+			} else if ev["totun"] == true && ev["variant"] == "icmp-quote" {
+				key, what = vf.Key("admitted", ev["variant"], ev["kind"], ev["hist"]), "an ICMPv6 message was handed to the local interface although no icmp6/ping6 service admits its sender and the local host never sent it an ICMPv6 packet (what the message quotes - the port of a tcp/udp service, a packet the local host sent, an admitted connection - is the sender's choice and admits nothing: a tcp service admits TCP, a udp service UDP)"
 			} else if ev["totun"] == true {
 				key, what = vf.Key("admitted", ev["variant"], ev["flow"]), "the packet was handed to the local interface although the policy forbids it"
 			} else {
@@ -491,6 +555,21 @@ func run(c *vf.Ctx) {
 		}
 		c.Violation(key, fmt.Sprintf("%s: %v", what, ev), ev, nil)
 		events = events[rejectAt:]
+		if ev["variant"] == "icmp-quote" {
+			// one report per class of ICMPv6 message: TLC is not asked again about the messages of a class that has been
+			// reported (a defect in this path is hit by hundreds of them, and every rejection costs a run of TLC)
+			sig := func(e map[string]any) string {
+				return fmt.Sprint(e["variant"], e["totun"], e["flow"], e["kind"], e["hist"], e["panic"])
+			}
+			rest := events[:0:0]
+			for _, x := range events {
+				if e, ok := x.(map[string]any); ok && e["variant"] == "icmp-quote" && sig(e) == sig(ev) {
+					continue
+				}
+				rest = append(rest, x)
+			}
+			events = rest
+		}
 		if c.NViolations() > 6 {
 			break
 		}
